@@ -136,7 +136,7 @@ class Job:
     def __init__(s, prop, name, src, root, units=(), defines=None, unwind=2, unwindset=None, flags=(),
                  backend='sat', timeout=600, mem_gb=12, tier='quick', stub=None, desc='', object_bits=None,
                  tv=20, covers=(), realloc_copy_max=None, extra_c=(), no_checks=False, arena=None,
-                 expect_fail=(), gxx_extra=(), unit_defines=None, gxx_units=(), gxx_exclude=(), cut='', unwind_re=None):
+                 expect_fail=(), gxx_extra=(), unit_defines=None, gxx_units=(), gxx_exclude=(), cut='', unwind_re=None, ir_exclude=()):
         s.prop = prop; s.name = name; s.src = src; s.root = root; s.units = list(units)
         s.defines = dict(defines or {}); s.unwind = unwind; s.unwindset = dict(unwindset or {})
         s.flags = list(flags); s.backend = backend; s.timeout = timeout; s.mem_gb = mem_gb; s.tier = tier
@@ -144,7 +144,7 @@ class Job:
         s.desc = desc; s.object_bits = object_bits; s.tv = tv; s.covers = list(covers)
         s.realloc_copy_max = realloc_copy_max; s.extra_c = list(extra_c); s.no_checks = no_checks
         s.arena = arena; s.expect_fail = list(expect_fail); s.gxx_extra = list(gxx_extra)
-        s.unit_defines = dict(unit_defines or {}); s.gxx_units = list(gxx_units); s.gxx_exclude = list(gxx_exclude); s.cut = cut; s.unwind_re = dict(unwind_re or {})
+        s.unit_defines = dict(unit_defines or {}); s.gxx_units = list(gxx_units); s.gxx_exclude = list(gxx_exclude); s.cut = cut; s.unwind_re = dict(unwind_re or {}); s.ir_exclude = list(ir_exclude)
 
 def backend_flags(b, bdir):
     env = dict(os.environ)
@@ -171,7 +171,7 @@ def build_job(job, bdir, log):
     dfl = ['-D%s=%s' % kv for kv in sorted({**job.unit_defines, **job.defines}.items())]
     hll = os.path.join(bdir, 'h.ll')
     must([CLANG] + IRFLAGS + dfl + [os.path.join(HARN, job.src), '-o', hll])
-    units = all_units() if job.units == ['ALL'] else job.units
+    units = [u for u in all_units() if u not in job.ir_exclude] if job.units == ['ALL'] else job.units
     with ThreadPoolExecutor(8) as ex:
         ulls = list(ex.map(lambda u: compile_unit_ll(bdir, u, job.unit_defines), units))
     allll = os.path.join(bdir, 'all.ll')
@@ -219,8 +219,10 @@ def make_gb(bdir, xc, mainc, tag, cdefs, extra_c=()):
 
 def loops_matching(gb, unwind_re):
     """per-loop bounds from regexes over loop ids (function.N), resolved against the goto binary"""
-    rc, out, w, _ = sh(['cbmc', gb, '--show-loops'], timeout=300)
+    rc, out, w, _ = sh(['goto-instrument', '--show-loops', gb], timeout=900)
     ids = re.findall(r'^Loop (\S+):', out, re.M)
+    if not ids:
+        raise RuntimeError('show-loops gave no loop ids for %s (rc=%s after %.0fs)' % (gb, rc, w))
     res = {}
     for rx, n in unwind_re.items():
         for i in ids:
